@@ -56,6 +56,7 @@ func genC03(t *rapid.T) C03Case {
 		lowBits := uint(bits.Len64(f.N()))
 		c.High = uint64(1) << uint(rapid.IntRange(int(lowBits), 62).Draw(t, "highbit"))
 	}
+	hostileRows = []int{63, c.Map.Rows, c.Part.Rows, int(model.Rows(f.N())) + 1}
 	v := f.View()
 	inRange := rapid.IntRange(0, 3).Draw(t, "inrange") != 0
 	c.Tuple = genHostileTuple(t, f, v, inRange, false)
